@@ -78,7 +78,7 @@ def exc_matches(cls, handler):
 
 MODULE_NAMES = {"log", "time", "random", "os", "base64", "json", "service", "websocket"}
 BUILTIN_FUNCS = {"isinstance", "type", "len", "sorted", "set", "list", "bool", "any", "all", "sum", "range",
-                 "str", "int", "dict", "min", "max", "float", "tuple", "generate_mailbox_id", "dict_to_bytes", "bytes_to_dict"}
+                 "str", "int", "dict", "min", "max", "float", "tuple", "round", "abs", "generate_mailbox_id", "dict_to_bytes", "bytes_to_dict"}
 NAMED_TUPLES = {"SidedMessage": ["side", "phase", "body", "server_rx", "msg_id"],
                 "Usage": ["started", "waiting_time", "total_time", "result"]}
 NT_KINDS = {"SidedMessage": {"side": "str", "phase": "str", "body": "str", "server_rx": "real", "msg_id": "json"}}
@@ -795,6 +795,20 @@ class Exec:
 
     def e_Subscript(self, e, env):
         obj = self.eval(e.value, env)
+        if isinstance(e.slice, ast.Slice):
+            sl = e.slice
+            lo = self.eval(sl.lower, env) if sl.lower is not None else VConst(0)
+            hi = self.eval(sl.upper, env) if sl.upper is not None else None
+            if sl.step is not None or not isinstance(obj, (VList, VRowList)) or not isinstance(lo, VConst) \
+                    or not isinstance(lo.py, int) or lo.py < 0 \
+                    or (hi is not None and not (isinstance(hi, VConst) and isinstance(hi.py, int) and hi.py >= 0)):
+                raise Unsupported("slice at %d" % e.lineno)
+            a = IntVal(lo.py)
+            end = obj.n if hi is None else If(obj.n < hi.py, obj.n, IntVal(hi.py))
+            n2 = If(end - a > 0, end - a, IntVal(0))
+            if lo.py == 0:
+                return VList(n2, lambda i, obj=obj: obj.at(i))
+            return VList(n2, lambda i, obj=obj, a=a: obj.at(i + a))
         key = self.eval(e.slice, env)
         if isinstance(obj, VOpt):
             self.require(Not(obj.is_none), "TypeError", e)
@@ -825,6 +839,9 @@ class Exec:
             if isinstance(key, VConst) and isinstance(key.py, int) and key.py >= 0:
                 self.require(obj.n > key.py, "IndexError", e)
                 return obj.at(IntVal(key.py))
+            if isinstance(key, VConst) and isinstance(key.py, int) and key.py < 0:
+                self.require(obj.n >= -key.py, "IndexError", e)
+                return obj.at(obj.n + IntVal(key.py))
             raise Unsupported("list index at %d" % e.lineno)
         if isinstance(obj, VDict):
             kt = self.scalar(key, "str", e)
@@ -846,17 +863,18 @@ class Exec:
         raise Unsupported("unary op at %d" % e.lineno)
 
     def e_BoolOp(self, e, env):
-        # value-returning and/or with short-circuit; only truthiness is used in
-        # this code base, so the result is the Bool
+        # value-returning and/or with short-circuit: the value of the deciding operand, as in Python
         if isinstance(e.op, ast.Or):
             for x in e.values[:-1]:
-                if self.branch(self.truthy(self.eval(x, env)), "or@%d" % e.lineno):
-                    return VConst(True)
-            return VZ(self.truthy(self.eval(e.values[-1], env)), "bool")
+                v = self.eval(x, env)
+                if self.branch(self.truthy(v), "or@%d" % e.lineno):
+                    return v
+            return self.eval(e.values[-1], env)
         for x in e.values[:-1]:
-            if not self.branch(self.truthy(self.eval(x, env)), "and@%d" % e.lineno):
-                return VConst(False)
-        return VZ(self.truthy(self.eval(e.values[-1], env)), "bool")
+            v = self.eval(x, env)
+            if not self.branch(self.truthy(v), "and@%d" % e.lineno):
+                return v
+        return self.eval(e.values[-1], env)
 
     def e_IfExp(self, e, env):
         if self.branch(self.truthy(self.eval(e.test, env)), "ifexp@%d" % e.lineno):
